@@ -78,9 +78,10 @@ type txInfo struct {
 }
 
 type govWorld struct {
-	r     *simkit.Run
-	chain *simtm.Chain
-	keys  []*simtm.Key // universe of potential keypers
+	r       *simkit.Run
+	chain   *simtm.Chain
+	chainID string
+	keys    []*simtm.Key // universe of potential keypers
 	outs  []*simtm.Key // outsiders
 	now   time.Time
 
@@ -109,6 +110,7 @@ type govWorld struct {
 }
 
 type govParams struct {
+	chainID     string // "" = govChainID
 	maxUniverse int
 	replicas    int
 	smallThresh bool // over-sample thresholds <= n/2
@@ -124,7 +126,11 @@ func newGovWorld(r *simkit.Run, p govParams) *govWorld {
 	for i := 0; i < 2; i++ {
 		w.outs = append(w.outs, simtm.DetKey(fmt.Sprintf("outsider-%d", i)))
 	}
-	w.chain = simtm.NewChain(govChainID, p.replicas)
+	w.chainID = govChainID
+	if p.chainID != "" {
+		w.chainID = p.chainID
+	}
+	w.chain = simtm.NewChain(w.chainID, p.replicas)
 	ng := r.C.Range(1, nu, "genesis-n")
 	var gk []common.Address
 	for i := 0; i < ng; i++ {
@@ -204,7 +210,7 @@ func (w *govWorld) record(ti *txInfo) *txInfo {
 func (w *govWorld) mk(k *simtm.Key, msg *shmsg.Message, kind, desc string) *txInfo {
 	n := w.nonce()
 	ti := &txInfo{Sender: k.Addr, Nonce: n, ChainOK: true, Decodes: true, Kind: kind, Desc: fmt.Sprintf("%s by %s: %s", kind, k.Name, desc)}
-	ti.Bytes = simtm.MakeTx(k, govChainID, n, msg)
+	ti.Bytes = simtm.MakeTx(k, w.chainID, n, msg)
 	return w.record(ti)
 }
 
@@ -213,11 +219,26 @@ func (w *govWorld) newCandidate() cfgSpec {
 	c := w.r.C
 	last := w.last()
 	idx := last.Index + 1
-	switch c.Weighted([]int{8, 1, 1}, "cand-index") {
+	switch c.Weighted([]int{80, 10, 10, 2}, "cand-index") {
 	case 1:
 		idx = last.Index + 2
 	case 2:
 		idx = last.Index // invalid
+	case 3:
+		// the largest index there is: every later candidate is stale ("strictly larger" has no
+		// room left), including the ones whose index arithmetic wraps around
+		idx = ^uint64(0) - uint64(c.Intn(2, "cand-index-top"))
+	}
+	if len(w.cands) > 0 && c.Chance(150, "cand-permuted-twin") {
+		// the same members in another order are a different configuration (keyper positions are
+		// DKG indices): votes for the two must not be added together
+		twin := simkit.Pick(c, w.cands, "twin-of")
+		ks := append([]common.Address(nil), twin.Keypers...)
+		for i, j := range c.Perm(len(ks), "twin-perm") {
+			ks[i] = twin.Keypers[j]
+		}
+		w.r.Probe("candidate-is-permutation-of-another")
+		return cfgSpec{Index: twin.Index, Activation: twin.Activation, Keypers: ks, Threshold: twin.Threshold}
 	}
 	act := last.Activation
 	switch c.Weighted([]int{4, 5, 1}, "cand-act") {
